@@ -607,6 +607,45 @@ def r10j_filter_sees_recorded_module(ctx):
                     r.violate(key, "%s at %s sees %d of the %d definitions of `%s` that reach the record: it tests another string than "
                                    "the one stored in FixtureImport.module_path" % (c["res"].split("::")[-1], crate.span_str(c["span"]),
                                                                                    len(at_test & at_rec), len(at_rec), f.local_name(L)))
+        # a filter applied to a PART of the recorded string (the bare module name that is later prefixed with the dots of a
+        # relative import): sound only where relative imports are excluded first -- `level == 0 && is_stdlib(name)`
+        from .r5 import _slice_fields
+        from .r7 import _root_local
+        dom = f.dominators()
+        Ls = {L for _b, _s, L in recs}
+        feeders = set()
+        for bb, c in f.calls():
+            roots = [_root_local(f, a) for a in c["args"]]
+            if c["args"] and roots[0] in Ls and re.search(r"::(push_str|add|add_assign|insert_str|extend)$|Add<.*>>::add$", c.get("res") or ""):
+                feeders |= {x for x in roots[1:] if x is not None}
+        rel_guards = []
+        for bb, b in enumerate(f.blocks):
+            t = b["t"]
+            if t[0] != "switch":
+                continue
+            for st in b["s"]:
+                if st[0] == "=" and st[2][0] == "bin" and st[2][1] == "Eq" and op_local(t[1]) == place_local(st[1]):
+                    a_, c_ = st[2][2], st[2][3]
+                    for x, y in ((a_, c_), (c_, a_)):
+                        k = op_const(y)
+                        if k is not None and str(k.get("v")) == "0" and any(nm == "level" and o.endswith("StmtImportFrom") for o, nm in _slice_fields(f, x)):
+                            rel_guards.append(t[3])  # otherwise-edge = comparison true
+        for bb, c in f.calls():
+            if not c.get("res_local") or c["span"][4].startswith("macro:"):
+                continue
+            g = crate.fns.get(c.get("res"))
+            if g is None or g.ret != "bool":
+                continue
+            part = [a for a in c["args"] if _root_local(f, a) in feeders and _root_local(f, a) not in Ls]
+            if not part:
+                continue
+            n += 1
+            key = "R10j|%s|%s tests a part of the recorded module string" % (f.id, c["res"].split("::")[-1])
+            if any(tg in dom.get(bb, set()) for tg in rel_guards):
+                r.ok(sample={"filter": c["res"].split("::")[-1], "tests": "the bare module name, under `level == 0`"})
+            else:
+                r.violate(key, "%s at %s tests the bare module name of an import whose recorded string also carries the dots of a relative "
+                               "import, without excluding relative imports first" % (c["res"].split("::")[-1], crate.span_str(c["span"])))
     r.floor("filters on recorded import module strings", n, 1)
     return r
 
@@ -788,5 +827,5 @@ def r10m_import_reads_are_transitive(ctx):
                 else:
                     r.violate(key, "%s reads `%s` for a resolved module at %s without a recursive call for the same path: names the "
                                    "module re-exports are not seen" % (gid.split("::")[-1], op.ident.split(".")[-1], crate.span_str(op.call["span"])))
-    r.floor("definition-index reads in the import computation", n, 2)
+    r.floor("definition-index reads in the import computation", n, 1)
     return r
